@@ -139,6 +139,29 @@ def external_rules(fb, ctx):
                 c = strip(gnode["cond"])
                 conds.append(c)
         simple = len(guards) == 1 and len(conds) == 1 and conds[0].get("k") == "letexpr" and hirq.pat_variants(conds[0]["pat"]) == {"std::prelude::v1::Some"} and not [s for s in hirq.subpatterns(conds[0]["pat"]) if s.get("k") not in ("bind", "wild")] and strip(conds[0]["init"]).get("k") == "mcall" and strip(strip(conds[0]["init"])["recv"]).get("name") == "external_signature"
+        if not simple:
+            # the same guard in its other spellings: the tested value may be bound to a variable first
+            # (`let ext = block.external_signature.as_ref();`), and the test may be a two-arm `match` (`Some(sig) => verify_external(..),
+            # None => Ok(())`) or a `let Some(sig) = .. else { return Ok(()) }` before the call
+            is_call = lambda z: bool(mcalls(z, r"crypto::verify_external_signature$"))
+            ext_lets_holder = [set()]
+            def is_ext(e_):
+                e_ = strip(e_)
+                while isinstance(e_, dict) and e_.get("k") == "mcall" and e_.get("name") in ("as_ref", "as_deref") and not e_.get("args"):
+                    e_ = strip(e_["recv"])
+                return isinstance(e_, dict) and ((e_.get("k") == "field" and e_.get("name") == "external_signature") or hirq.is_lid(e_, ext_lets_holder[0]))
+            ext_lets_holder[0] = hirq.let_ids(hb["body"], is_ext)
+            some_only = lambda p_: {(v or "").split("::")[-1] for v in hirq.pat_variants(p_)} == {"Some"} and not [s_ for s_ in hirq.subpatterns(p_) if s_.get("k") not in ("bind", "wild")]
+            if len(guards) == 1 and guards[0].get("k") == "if":
+                c_ = strip(guards[0]["cond"])
+                simple = c_.get("k") == "letexpr" and some_only(c_["pat"]) and is_ext(c_["init"]) and is_call(guards[0]["then"]) and not (guards[0].get("else") and is_call(guards[0]["else"]))
+            elif len(guards) == 1 and guards[0].get("k") == "match":
+                g_ = guards[0]
+                with_call = [a_ for a_ in g_["arms"] if is_call(a_["body"])]
+                simple = is_ext(g_["scrut"]) and len(g_["arms"]) == 2 and len(with_call) == 1 and some_only(with_call[0]["pat"]) and with_call[0].get("guard") is None
+            elif not guards:
+                le = [l_ for l_ in find_all(hb["body"], lambda z: z.get("k") == "let" and z.get("els") is not None and z.get("init") is not None and is_ext(z["init"]))]
+                simple = len(le) == 1 and some_only(le[0]["pat"]) and bool(find_all(le[0]["els"], lambda z: z.get("k") == "ret" and (hirq.ctor_name(strip(z.get("e") or {})) or "").endswith("::Ok")))
         ctx.check(simple, "PASS", "every block with an external signature is re-checked", "PASS|verify_block_signature|external-guard", "verify_external_signature must run under exactly `if let Some(sig) = block.external_signature.as_ref()` (no further condition)", f"{vb['file']}:{ex[0].ln}")
 
 
